@@ -33,6 +33,7 @@ Encode(v) == CASE v.t = "null" -> JNull
                [] v.t = "timestamp" -> [j |-> "str", v |-> Rfc3339(BigOf(v))]
                [] v.t = "duration" -> [j |-> "str", v |-> DurText(BigOf(v))]
                [] v.t = "bytes" -> [j |-> "str", v |-> Base64(v.v)]
+               [] OTHER -> [j |-> "indef"]              \* type values: no JSON form is defined
 \* a path step: <<"f", key code points>> (object member) or <<"i", n>> (array index, from 0)
 RECURSIVE JNavigate(_,_)
 JNavigate(d, p) == IF p = <<>> THEN d
